@@ -26,6 +26,7 @@ var registry = map[string]func(*chk.Run){
 	"C14": checks.C14,
 	"C15": checks.C15,
 	"C17": checks.C17,
+	"C18": checks.C18,
 	"C19": checks.C19,
 	"C20": checks.C20,
 	"C06": checks.C06,
